@@ -100,6 +100,8 @@ type Atom struct {
 
 type Transform struct {
 	Multi   bool
+	// ByVal: one-to-one, output key = "val/" + input.Val (not the input's key: it moves between parents)
+	ByVal   bool
 	Gate    bool
 	Fetches [][]Atom
 	// chainSuffix: the observed collection is chained behind the derived one (oracle only)
@@ -125,7 +127,11 @@ func (t Transform) Token() string {
 		}
 		fs = append(fs, strings.Join(as, "+"))
 	}
-	return b(t.Multi) + ":" + b(t.Gate) + ":" + strings.Join(fs, ";")
+	m := b(t.Multi)
+	if t.ByVal && !t.Multi {
+		m = "2"
+	}
+	return m + ":" + b(t.Gate) + ":" + strings.Join(fs, ";")
 }
 
 func parseTransform(t string) (Transform, bool) {
@@ -133,7 +139,7 @@ func parseTransform(t string) (Transform, bool) {
 	if len(p) != 3 {
 		return Transform{}, false
 	}
-	tr := Transform{Multi: p[0] == "1", Gate: p[1] == "1"}
+	tr := Transform{Multi: p[0] == "1", ByVal: p[0] == "2", Gate: p[1] == "1"}
 	for _, f := range splitNE(p[2], ";") {
 		var as []Atom
 		for _, a := range splitNE(f, "+") {
@@ -149,6 +155,46 @@ func parseTransform(t string) (Transform, bool) {
 		tr.Fetches = append(tr.Fetches, as)
 	}
 	return tr, true
+}
+
+// claims: the output keys an input can produce, whatever it fetches (Lean: claimsOf = outKeys). For the
+// key-preserving one-to-one shape the only claim is the input's own key, which no other input can claim.
+func claims(t Transform, o Obj) []string {
+	switch {
+	case t.Multi:
+		return dedup(o.Outs)
+	case t.ByVal:
+		return []string{"val/" + o.Val}
+	}
+	return nil
+}
+
+var bigVals = []string{"v1", "v2", "v3", "v4", "v5", "v6", "v7"}
+
+// keepClaims restricts the claims of o to the keys ok accepts: a one-to-many input drops the other output
+// keys, a one-to-one input keyed by its value takes another value (a value of its own when none is free).
+func keepClaims(t Transform, o Obj, ok func(k string) bool) Obj {
+	switch {
+	case t.Multi:
+		var keep []string
+		for _, k := range o.Outs {
+			if ok(k) {
+				keep = append(keep, k)
+			}
+		}
+		o.Outs = keep
+	case t.ByVal:
+		if !ok("val/" + o.Val) {
+			o.Val = "own-" + strings.ReplaceAll(o.ResourceName(), "/", "-") // nobody else uses it
+			for _, v := range bigVals {
+				if ok("val/" + v) {
+					o.Val = v
+					break
+				}
+			}
+		}
+	}
+	return o
 }
 
 func genericPred(n int, i, o Obj) bool {
